@@ -18,6 +18,7 @@ import (
 	"verif/harness/core"
 	"verif/harness/gen"
 	"verif/harness/props/c02"
+	"verif/harness/props/c17/vendor"
 	"verif/harness/ref"
 	"verif/harness/xtree"
 )
@@ -27,6 +28,7 @@ type walker struct {
 	reg    *ref.Registry
 	digest []string
 	extra  map[string]uint32 // "Enum.Name" registered by the case itself (vendor extensions)
+	own    map[int]bool      // extension tags under which the case itself registered enumerations
 }
 
 func (w *walker) obs(format string, a ...any) { w.digest = append(w.digest, fmt.Sprintf(format, a...)) }
@@ -153,7 +155,7 @@ func (w *walker) enums() {
 			for range ttlv.EnumValuesByTag(t) {
 				n++
 			}
-			if _, ok := reg.EnumBy[t]; !ok {
+			if _, ok := reg.EnumBy[t]; !ok && !w.own[t] {
 				w.check(n == 0, fmt.Sprintf("C17:enum-unpinned:%06X", t), fmt.Sprintf("tag %06X has %d enumeration values but no pinned enumeration", t, n), nil)
 			}
 		}
@@ -449,6 +451,76 @@ func (w *walker) masks(r *core.Rand) {
 	}
 }
 
+// vendorTypeNames: vendor enumerations registered under extension tags, whose Go type names equal standard tag names.
+func vendorTypeNames(c *core.Ctx, r *core.Rand, i int) {
+	ttlv.RegisterTag("X-AcmeUnit", vendor.TagUnit)
+	ttlv.RegisterTag("X-AcmeState", vendor.TagState)
+	ttlv.RegisterTag("X-AcmeReport", vendor.TagReport)
+	ttlv.RegisterTag("X-AcmeKind", vendor.TagKind)
+	ttlv.RegisterEnum(vendor.TagState, vendor.States)
+	ttlv.RegisterEnum(vendor.TagKind, vendor.Kinds)
+	w := &walker{c: c, reg: ref.LoadRegistry(), own: map[int]bool{vendor.TagState: true, vendor.TagKind: true}}
+	type form struct {
+		name   string
+		newEnc func() ttlv.Encoder
+		newDec func([]byte) (ttlv.Decoder, error)
+		doc    func(state, kind string) string
+		quoted func(string) string
+	}
+	forms := []form{
+		{"xml", ttlv.NewXMLEncoder, ttlv.NewXMLDecoder, func(st, k string) string {
+			return `<X-AcmeReport><X-AcmeUnit type="TextString" value="p1"/><X-AcmeState type="Enumeration" value="` + st + `"/><X-AcmeKind type="Enumeration" value="` + k + `"/></X-AcmeReport>`
+		}, func(n string) string { return `value="` + n + `"` }},
+		{"json", ttlv.NewJSONEncoder, ttlv.NewJSONDecoder, func(st, k string) string {
+			return `{"tag":"X-AcmeReport","value":[{"tag":"X-AcmeUnit","type":"TextString","value":"p1"},{"tag":"X-AcmeState","type":"Enumeration","value":"` + st + `"},{"tag":"X-AcmeKind","type":"Enumeration","value":"` + k + `"}]}`
+		}, func(n string) string { return `"` + n + `"` }},
+	}
+	decode := func(f form, raw []byte) (out vendor.Report, err error) {
+		dec, derr := f.newDec(raw)
+		if derr != nil {
+			return out, derr
+		}
+		err = dec.TagAny(vendor.TagReport, &out)
+		return
+	}
+	for _, f := range forms {
+		for sn, sname := range vendor.States {
+			for kn, kname := range vendor.Kinds {
+				c.Count("vendor_type_name_values", 1)
+				c.Distinct(core.Hash64("vendor-type", f.name, sname, kname))
+				sig := "C17:vendor-type-named-like-standard-tag:" + f.name
+				// by number -> written under the scope's own names -> read back
+				var raw []byte
+				if p, pv, stk := core.Guard(func() {
+					enc := f.newEnc()
+					enc.TagAny(vendor.TagReport, &vendor.Report{Unit: "p1", State: sn, Kind: kn})
+					raw = append([]byte{}, enc.Bytes()...)
+				}); p {
+					c.Violation(core.PanicSig(pv, stk), fmt.Sprintf("encoding a vendor enumeration panicked: %v", pv), map[string]any{"stack": stk})
+					return
+				}
+				w.check(strings.Contains(string(raw), f.quoted(sname)) && strings.Contains(string(raw), f.quoted(kname)), sig+":written-under-foreign-name",
+					fmt.Sprintf("vendor values X-AcmeState=%d (%s), X-AcmeKind=%d (%s), whose Go types are called State and ObjectType, are not written under their own registered names in %s: %s", sn, sname, kn, kname, f.name, raw), nil)
+				got, err := decode(f, raw)
+				w.check(err == nil && got.State == sn && got.Kind == kn, sig+":own-output-read-differently",
+					fmt.Sprintf("vendor values %d/%d written as %s are read back as %d/%d (%v)", sn, kn, raw, got.State, got.Kind, err), nil)
+				// by name, written by a peer
+				got, err = decode(f, []byte(f.doc(sname, kname)))
+				w.check(err == nil && got.State == sn && got.Kind == kn, sig+":registered-name-not-understood",
+					fmt.Sprintf("names %q/%q in scopes X-AcmeState/X-AcmeKind give %d/%d (%v), registered are %d/%d", sname, kname, got.State, got.Kind, err, sn, kn), nil)
+			}
+		}
+		// names of the standard scopes with the same Go type names are not names of these scopes
+		for _, foreign := range [][2]string{{"PreActive", "Partition"}, {"Idle", "SymmetricKey"}, {"Active", "Certificate"}} {
+			got, err := decode(f, []byte(f.doc(foreign[0], foreign[1])))
+			w.check(err != nil, "C17:vendor-type-named-like-standard-tag:"+f.name+":foreign-name-accepted",
+				fmt.Sprintf("names %q/%q, one of which belongs to the standard State/ObjectType scope only, are accepted in the vendor scopes as %d/%d", foreign[0], foreign[1], got.State, got.Kind), nil)
+		}
+	}
+	// and the standard scopes are untouched by the vendor registration
+	w.enums()
+}
+
 func Spec() *core.Spec {
 	return &core.Spec{
 		ID:    "C17",
@@ -457,7 +529,7 @@ func Spec() *core.Spec {
 			"written and read back by name through XML, JSON, binary and the text form), repeated in 3 fresh processes whose observations are compared; once more in a fresh process after vendor extension values (0x8000000x) were registered for three already registered enumerations; plus every element, enumeration-value and mask-flag name used by the 5318 messages of the shipped OASIS vectors (documents produced elsewhere) resolved through pin and library; " +
 			"distinct = distinct registered (scope,name) entries visited",
 		Assumptions: []string{"/verif/ref/registry.json is the pinned KMIP 1.0-1.4 registry (dumped from the pinned tree and reviewed against the specification tables)"},
-		Required:    []string{"checks", "unregistered_numbers", "unknown_names", "mask_values.named-pair", "oasis_names.tag", "oasis_names.enum", "oasis_names.mask", "vendor_extension_values"},
+		Required:    []string{"checks", "unregistered_numbers", "unknown_names", "mask_values.named-pair", "oasis_names.tag", "oasis_names.enum", "oasis_names.mask", "vendor_extension_values", "vendor_type_name_values"},
 		EvalCounter: "checks",
 		Families: []core.Family{
 			{Name: "walk", Isolated: true, Exhaustive: true, N: func(string) int { return 3 }, Run: func(c *core.Ctx, r *core.Rand, i int) {
@@ -495,6 +567,7 @@ func Spec() *core.Spec {
 					w.check(err == nil && back.Value == ttlv.Enum(v) && strings.Contains(string(x), name), "C17:vendor-extension:"+k, fmt.Sprintf("vendor value %s does not round trip by name through XML: %s (%v)", k, x, err), nil)
 				}
 			}},
+			{Name: "vendor-type-names", Isolated: true, Exhaustive: true, N: func(string) int { return 1 }, Run: vendorTypeNames},
 			{Name: "oasis-names", Exhaustive: true, N: func(string) int { return len(c02.OasisMessages()) }, Run: func(c *core.Ctx, r *core.Rand, i int) {
 				// every element name, enumeration value name and mask flag name used by the shipped OASIS vectors
 				// (documents produced elsewhere) must denote, in the library, the number the pin gives it
